@@ -248,12 +248,12 @@ open PersimVerif.Wasserstein PersimVerif.WsLemmas
 variable {K : Type} [Field K] [LinearOrder K] [IsStrictOrderedRing K]
 
 /-- the Euclidean cost rule of `Model/Rows.lean` is the cost system of C02's specification -/
-theorem pairCost_eq_cP (sqrt : K → K) (S T : List (K × K)) :
+private theorem pairCost_eq_cP (sqrt : K → K) (S T : List (K × K)) :
     pairCost sqrt (placeholder S) (placeholder T) = cP (euclidM sqrt) S T := by
   funext i j
   simp only [pairCost, euclid, cOf, euclidM, pow_two, List.get_eq_getElem, Fin.getElem_fin]
 
-theorem diagCost_eq_uP (sqrt : K → K) (S : List (K × K)) :
+private theorem diagCost_eq_uP (sqrt : K → K) (S : List (K × K)) :
     diagCost sqrt (placeholder S) = uP (diagL2M sqrt) S := rfl
 
 /-- **"the rows certify `w`"** for finite diagrams `S`, `T` (property C06, Wasserstein half): the
@@ -388,5 +388,176 @@ theorem model_rows_independent_of_solver_value (sqrt : K → K) (c : K) (hs : Sq
   exact ⟨w₁, rows₁, rows₂, hrun₁, hrun₂, c₁.accepted, c₂.accepted⟩
 
 end Ws
+
+/-! ## 3. the property as one statement per routine (what sections 1 and 2 prove) -/
+
+/-- **C06 for the model of `persim.bottleneck`**, as a single statement over a linear ordered field -/
+def ModelBnRowsCertify (K : Type) [Field K] [LinearOrder K] [IsStrictOrderedRing K] : Prop :=
+  ∀ (oracle : Bottleneck.Graph → Bottleneck.Matching), Bottleneck.OracleMax oracle →
+  ∀ (d1 d2 : List (K × Option K)),
+    (∀ p ∈ Bottleneck.finitePart d1, p.1 ≤ p.2) → (∀ p ∈ Bottleneck.finitePart d2, p.1 ≤ p.2) →
+    ∃ (r : Bottleneck.Result K) (v : K) (rows : List (Row K)),
+      Bottleneck.bottleneckWithMatching oracle d1 d2 = some (r, rows.map rowExt)
+      ∧ Bottleneck.bottleneck oracle d1 d2 = some r ∧ r.value = .fin v
+      ∧ BnCertified (Bottleneck.finitePart d1) (Bottleneck.finitePart d2) v rows
+
+theorem modelBnRowsCertify {K : Type} [Field K] [LinearOrder K] [IsStrictOrderedRing K] :
+    ModelBnRowsCertify K := by
+  intro oracle ho d1 d2 h1 h2
+  obtain ⟨r, v, rows, a, b, c, -, d⟩ := model_bn_rows_total ho d1 d2 h1 h2
+  exact ⟨r, v, rows, a, b, c, d⟩
+
+/-- **C06 for the model of `persim.wasserstein`**, as a single statement -/
+def ModelWsRowsCertify (K : Type) [Field K] [LinearOrder K] [IsStrictOrderedRing K] : Prop :=
+  ∀ (sqrt : K → K) (c : K), SqrtSpec sqrt → CosSpec c →
+  ∀ (lsa : Wasserstein.Mat K → List (Nat × Nat)), WsLemmas.LsaContract lsa →
+  ∀ (d1 d2 : Wasserstein.Dgm K),
+    ∃ (w : K) (rows : List (Row K)),
+      Wasserstein.wasserstein sqrt c c lsa d1 d2
+        = .ok ⟨some w, Wasserstein.warned d1, Wasserstein.warned d2, rows.map rowOpt⟩
+      ∧ WsCertified sqrt (Wasserstein.finitePart d1) (Wasserstein.finitePart d2) w rows
+
+theorem modelWsRowsCertify {K : Type} [Field K] [LinearOrder K] [IsStrictOrderedRing K] :
+    ModelWsRowsCertify K := by
+  intro sqrt c hs hc lsa hl d1 d2
+  obtain ⟨w, rows, a, -, -, -, b⟩ := model_ws_rows_certify sqrt c hs hc lsa hl d1 d2
+  exact ⟨w, rows, a, b⟩
+
+/-! ## 4. at the reals, in the vocabulary of C07 / C07Model -/
+
+section Reals
+open PersimVerif.C07
+
+/-- **the bottleneck model over `ℝ`**: whatever `bottleneckWithMatching` returns (any oracle with
+    `OracleMax`, proper diagrams), the distance component is what `bottleneck` returns (`BnReturns`),
+    it is the bottleneck distance `IsBn` of the finite parts, and the rows are accepted by the checker
+    with maximum `v` and are an optimal matching for C07's cost system `(cB, uB)`. -/
+theorem model_bn_rows_certify_real {oracle : Bottleneck.Graph → Bottleneck.Matching}
+    (ho : Bottleneck.OracleMax oracle) {d1 d2 : List (ℝ × Option ℝ)} (h1 : ProperDgm d1) (h2 : ProperDgm d2)
+    (r : Bottleneck.Result ℝ) (rowsE : List (Int × Int × Bottleneck.Ext ℝ))
+    (h : Bottleneck.bottleneckWithMatching oracle d1 d2 = some (r, rowsE)) :
+    ∃ (v : ℝ) (rows : List (Row ℝ)), BnReturns oracle d1 d2 v ∧ r.value = .fin v ∧ rowsE = rows.map rowExt
+      ∧ checkRowsBn linfM diagInfM (Bottleneck.finitePart d1) (Bottleneck.finitePart d2) rows v = true
+      ∧ IsBn (Bottleneck.finitePart d1).get (Bottleneck.finitePart d2).get v
+      ∧ ∃ p : PM (PIdx (Bottleneck.finitePart d1)) (PIdx (Bottleneck.finitePart d2)),
+          p.MaxLE (cB (pts (Bottleneck.finitePart d1)) (pts (Bottleneck.finitePart d2)))
+            (uB (pts (Bottleneck.finitePart d1))) (uB (pts (Bottleneck.finitePart d2))) v
+          ∧ AttainsMax p (cB (pts (Bottleneck.finitePart d1)) (pts (Bottleneck.finitePart d2)))
+            (uB (pts (Bottleneck.finitePart d1))) (uB (pts (Bottleneck.finitePart d2))) v
+          ∧ ∀ (q : PM (PIdx (Bottleneck.finitePart d1)) (PIdx (Bottleneck.finitePart d2))) (d' : ℝ),
+              q.MaxLE (cB (pts (Bottleneck.finitePart d1)) (pts (Bottleneck.finitePart d2)))
+                (uB (pts (Bottleneck.finitePart d1))) (uB (pts (Bottleneck.finitePart d2))) d' → ¬ d' < v := by
+  obtain ⟨hbn, v, rows, hv, hrows, -, -, hcert⟩ := model_bn_rows_certify ho d1 d2 h1 h2 r rowsE h
+  exact ⟨v, rows, ⟨r, hbn, hv⟩, hv, hrows, hcert.accepted, isBn_of_cst hcert.value_is_spec, hcert.optimal⟩
+
+/-- **the Wasserstein model over `ℝ`** with the code's constants `Real.sqrt`, `cos(π/4)`, `sin(π/4)`:
+    for every solver honouring `LsaContract` the model returns `w` (`WsReturns`), `w` is the
+    Wasserstein distance `IsWs` of the finite parts, the rows are accepted by the checker with sum `w`
+    and are an optimal matching for C07's cost system `(cW, uW)`. -/
+theorem model_ws_rows_certify_real (lsa : Wasserstein.Mat ℝ → List (Nat × Nat)) (hl : WsLemmas.LsaContract lsa)
+    (d1 d2 : Wasserstein.Dgm ℝ) :
+    ∃ (w : ℝ) (rows : List (Row ℝ)),
+      Wasserstein.wasserstein Real.sqrt (Real.cos (Real.pi / 4)) (Real.sin (Real.pi / 4)) lsa d1 d2
+        = .ok ⟨some w, Wasserstein.warned d1, Wasserstein.warned d2, rows.map rowOpt⟩
+      ∧ WsReturns lsa d1 d2 w
+      ∧ checkRowsWs (euclidM Real.sqrt) (diagL2M Real.sqrt) (Wasserstein.finitePart d1)
+          (Wasserstein.finitePart d2) rows w = true
+      ∧ IsWs (Wasserstein.finitePart d1).get (Wasserstein.finitePart d2).get w
+      ∧ ∃ p : PM (PIdx (Wasserstein.finitePart d1)) (PIdx (Wasserstein.finitePart d2)),
+          p.sumCost (cW (pts (Wasserstein.finitePart d1)) (pts (Wasserstein.finitePart d2)))
+            (uW (pts (Wasserstein.finitePart d1))) (uW (pts (Wasserstein.finitePart d2))) = w
+          ∧ ∀ q : PM (PIdx (Wasserstein.finitePart d1)) (PIdx (Wasserstein.finitePart d2)),
+              p.sumCost (cW (pts (Wasserstein.finitePart d1)) (pts (Wasserstein.finitePart d2)))
+                (uW (pts (Wasserstein.finitePart d1))) (uW (pts (Wasserstein.finitePart d2)))
+              ≤ q.sumCost (cW (pts (Wasserstein.finitePart d1)) (pts (Wasserstein.finitePart d2)))
+                (uW (pts (Wasserstein.finitePart d1))) (uW (pts (Wasserstein.finitePart d2))) := by
+  have hsc : Real.sin (Real.pi / 4) = Real.cos (Real.pi / 4) := by
+    rw [Real.sin_pi_div_four, Real.cos_pi_div_four]
+  rw [hsc]
+  obtain ⟨w, rows, hrun, -, -, -, hcert⟩ := model_ws_rows_certify Real.sqrt _ C02.sqrtSpec_real
+    C02.cosSpec_real lsa hl d1 d2
+  have hW : IsWs (Wasserstein.finitePart d1).get (Wasserstein.finitePart d2).get w := hcert.value_is_spec
+  have hacc := hcert.accepted
+  refine ⟨w, rows, hrun, ⟨_, by rw [hsc]; exact hrun⟩, hacc, hW, ?_⟩
+  have hWp : IsWs (pts (Wasserstein.finitePart d1)) (pts (Wasserstein.finitePart d2)) w := by
+    obtain ⟨p, hp, hmin⟩ := hcert.optimal
+    rw [euclidM_eq, diagL2M_eq] at hp hmin
+    exact ⟨⟨p, hp⟩, fun q => hp ▸ hmin q⟩
+  exact wasserstein_matching_certifies _ _ rows w hacc hWp
+
+end Reals
+
+/-! ## 5. non-vacuity -/
+
+section Examples
+
+-- the 2×2 "bisect bug" diagrams of the test suite (C01: their bottleneck cost is 2): the hypotheses
+-- hold for a contract-honouring oracle, so the model returns rows, the checker accepts them with
+-- maximum exactly 2, whichever maximum matchings the oracle picks
+example : ∃ oracle : Bottleneck.Graph → Bottleneck.Matching, Bottleneck.OracleMax oracle ∧
+    ∃ (r : Bottleneck.Result ℚ) (rows : List (Row ℚ)),
+      Bottleneck.bottleneckWithMatching oracle (Bottleneck.lift [((6:ℚ), (9:ℚ)), (6, 8)])
+        (Bottleneck.lift [((4:ℚ), (10:ℚ)), (9, 10)]) = some (r, rows.map rowExt)
+      ∧ r.value = .fin 2
+      ∧ checkRowsBn linfM diagInfM [((6:ℚ), (9:ℚ)), (6, 8)] [((4:ℚ), (10:ℚ)), (9, 10)] rows 2 = true := by
+  obtain ⟨o, ho⟩ := C01.oracleMax_exists
+  obtain ⟨r, v, rows, hwm, -, hv, -, hcert⟩ := model_bn_rows_total ho
+    (Bottleneck.lift [((6:ℚ), (9:ℚ)), (6, 8)]) (Bottleneck.lift [((4:ℚ), (10:ℚ)), (9, 10)])
+    (by rw [Bottleneck.finitePart, Bottleneck.filterFinite_lift]; simp; norm_num)
+    (by rw [Bottleneck.finitePart, Bottleneck.filterFinite_lift]; simp; norm_num)
+  have hspec := hcert.value_is_spec
+  have hacc := hcert.accepted
+  simp only [Bottleneck.finitePart, Bottleneck.filterFinite_lift] at hspec hacc
+  have h2 : v = 2 := C01.isBottleneck_unique hspec C01.bisect_bug_instance
+  subst h2
+  exact ⟨o, ho, r, rows, hwm, hv, hacc⟩
+
+-- an empty side, a point of infinite death, a diagonal point: the guard holds
+example : (∀ p ∈ Bottleneck.finitePart [((0:ℚ), (none : Option ℚ)), (1, some 2), (3, some 3)], p.1 ≤ p.2) ∧
+    (∀ p ∈ Bottleneck.finitePart ([] : List (ℚ × Option ℚ)), p.1 ≤ p.2) := by
+  constructor <;> simp [Bottleneck.finitePart, Bottleneck.filterFinite]
+
+private def S0 : List (Rat × Rat) := [(0, 2), (1, 4)]
+private def T0 : List (Rat × Rat) := [(0, 3)]
+
+/-- inverse of `rowExt` (only to let the kernel compare the model's rows in the examples below) -/
+private def unRowExt : Int × Int × Bottleneck.Ext Rat → Option (Row Rat)
+  | (i, j, .fin c) => some ⟨i, j, c⟩
+  | (_, _, .top) => none
+
+-- the two extraction functions, executed by the kernel on the matrix of S0, T0 and the dict
+-- {2:1, 0:0, 1:2}: the C01 model's loop (reads the dict with `lookup`) …
+example : (Bottleneck.extractRows 2 1 (Bottleneck.augD S0 T0) [(2, 1), (0, 0), (1, 2)]).bind
+    (fun rows => rows.mapM unRowExt) = some [⟨0, 0, 1⟩, ⟨1, -1, 3/2⟩] := by decide +kernel
+-- … C06's loop on the list view of the same dict: the same rows (`extractRows_refines`) …
+example : sigmaOf 3 [(2, 1), (0, 0), (1, 2)] = [0, 2, 1] := by decide +kernel
+example : extractRowsBn 2 1 (optD (Bottleneck.augD S0 T0)) (sigmaOf 3 [(2, 1), (0, 0), (1, 2)])
+    = some [⟨0, 0, 1⟩, ⟨1, -1, 3/2⟩] := by decide +kernel
+-- … accepted by the checker
+example : checkRowsBn linfM diagInfM S0 T0 [⟨0, 0, 1⟩, ⟨1, -1, 3/2⟩] (3/2) = true := by decide +kernel
+-- a dict without an entry for row 1 is a `KeyError`, not a default
+example : Bottleneck.extractRows 2 1 (Bottleneck.augD S0 T0) [(2, 1), (0, 0)] = none := by decide +kernel
+-- the two matrices agree entry by entry on this instance (`bnAug_isAug` is the general statement)
+example : (List.range 3).all (fun i => (List.range 3).all fun j =>
+    optD (Bottleneck.augD S0 T0) i j == Rows.augD linfM diagInfM S0 T0 i j) = true := by decide +kernel
+
+-- the C02 model's `rowsOf` on `zip(arange 3, [0, 2, 1])` and the selected entries: C06's rows
+example : Wasserstein.rowsOf 2 1 [(0, 0), (1, 2), (2, 1)] [some (1 : Rat), some (3/2), some 0]
+    = List.map rowOpt [⟨0, 0, 1⟩, ⟨1, -1, 3/2⟩] := by decide +kernel
+
+-- the Wasserstein theorem applies to ℝ, `Real.sqrt`, `cos(π/4)`, the verified exhaustive solver and
+-- diagrams with a repeated point, a diagonal point, a point of infinite death (warning flag set):
+-- the model returns, and the checker accepts its rows with sum = the returned value
+example : ∃ (w : ℝ) (rows : List (Row ℝ)),
+    Wasserstein.wasserstein Real.sqrt (Real.cos (Real.pi / 4)) (Real.sin (Real.pi / 4)) Wasserstein.exhLsa
+      [(0, some 1), (0, some 1), (2, some 2), (3, none)] [(0, some 2)]
+      = .ok ⟨some w, true, false, rows.map rowOpt⟩
+    ∧ checkRowsWs (euclidM Real.sqrt) (diagL2M Real.sqrt) [(0, 1), (0, 1), (2, 2)] [(0, 2)] rows w = true := by
+  obtain ⟨w, rows, hrun, -, hacc, -, -⟩ := model_ws_rows_certify_real Wasserstein.exhLsa C02.exhLsa_contract
+    [(0, some 1), (0, some 1), (2, some 2), (3, none)] [(0, some 2)]
+  refine ⟨w, rows, ?_, hacc⟩
+  rw [hrun]; simp [Wasserstein.warned, Wasserstein.finitePart]
+
+end Examples
 
 end PersimVerif.C06
